@@ -45,6 +45,11 @@ def analyses(env, z):
     return out
 
 
+def rw_nnf(t, env):
+    import pysmt.rewritings as rw
+    return rw.nnf(t, env) if t.get_type().is_bool_type() else t
+
+
 def shared_subterm_events(ck, terms, id0):
     """History = every analysis of a TLC-generated term T; probes = the same analyses of T's direct
     sub-terms (whose memoised results the history may have touched) and of T again; twin = a fresh
@@ -60,11 +65,25 @@ def shared_subterm_events(ck, terms, id0):
             if not subs_a:
                 continue
             analyses(ea, ta)
-            pa = [r for c in subs_a for r in analyses(ea, c)] + analyses(ea, ta)
+            # results of transformations are formulas too: what was returned for T is analysed like any other term
+            outs = []
+            for fn in (lambda: ta.simplify(), lambda: ta.substitute({}), lambda: rw_nnf(ta, ea)):
+                try:
+                    o = fn()
+                    if o is not ta and o.args():
+                        outs.append(term_io.export(o))
+                except Exception:
+                    pass
+            outs = outs[:2]
+            outs_a = [term_io.build_public(oj, ea) for oj in outs]
+            pa = [r for c in subs_a for r in analyses(ea, c)] + analyses(ea, ta) + [r for c in outs_a for r in analyses(ea, c)]
             eb = fresh_env()
             tb = term_io.build_public(j, eb)
             subs_b = [c for c in tb.args() if c.args()][:3]
-            pb = [r for c in subs_b for r in analyses(eb, c)] + analyses(eb, tb)
+            outs_b = [term_io.build_public(oj, eb) for oj in outs]
+            # in the twin the results are analysed FIRST, before anything has been asked about T
+            pb_outs = [r for c in outs_b for r in analyses(eb, c)]
+            pb = [r for c in subs_b for r in analyses(eb, c)] + analyses(eb, tb) + pb_outs
         except term_io.Unrepresentable:
             continue
         except Exception:
@@ -116,6 +135,13 @@ def run(ck):
     for key in sorted(groups):
         g = groups[key]
         chosen += ck.rng.sample(g, min(len(g), 1 if quick else 8))
+    # plus every term on which the simplifier's RULE MODEL is not a fix-point (simplifying the result changes it again,
+    # beyond argument order) - selected by TLC from spec/Simplifier.tla, not by asking the implementation: there a
+    # simplifier that remembered its own results as already simplified would be noticed
+    nonidem = gen_corpus("L2", shards=16, module="gen/Gen_NonIdem",
+                         deps=("gen/Gen_NonIdem.tla", "gen/Gen_Terms.tla", "Simplifier.tla", "Contracts.tla"),
+                         extra_constants={"Seed": 0, "Cap": 8})
+    chosen += nonidem[: (40 if quick else len(nonidem))]
     shared = shared_subterm_events(ck, chosen, len(evs))
     evs += shared
     verdicts, st = tlc.validate_events("Trace_Pure", evs, constants={"Seed": 0, "Cap": 8})
@@ -135,7 +161,7 @@ def run(ck):
             bad = [pnames[j] for j in range(len(e["pa"])) if e["pa"][j] != e["pb"][j] or e["rep"][j] == 0][:4]
             ck.violation({"kind": "twin", "clause": cl, "history": [names[c - 1] for c in e["h"]][:6], "probes": bad}, {"event": e})
     ck.part("histories", exhaustive_len_le_2=len(hists), simulated_len8=len(longs), used=len(picked), probes=len(pnames))
-    ck.part("shared_subterms", terms=len(shared), analyses_per_term=4)
+    ck.part("shared_subterms", terms=len(shared), analyses_per_term=4, non_fixpoint_simplifications=len(nonidem))
     ck.sample({"history": [names[c - 1] for c in evs[40]["h"]], "probe": pnames[0], "A": evs[40]["pa"][0], "B": evs[40]["pb"][0]})
     ck.cov["exhaustive"] = True
     ck.cov["rule"] = ("call histories enumerated by TLC (all sequences of length <= 2 over the 20-call alphabet, simulated length 8) x 18 "
